@@ -92,7 +92,7 @@ func entitlement(e *env.Env, p Pos) math.LegacyDec {
 // (pending distribution rewards are settled first so that entitlements are comparable).
 func c12(id string, op Op, ps []Pos) {
 	// quick tier: validator-share price 1 for the stake-moving operations (delegator-share prices symbolic)
-	st := Build(ps, Opts{Rewards: true, NVals: 2, StrictRewards: true, ValPriceOne: (op == OpDelegate || op == OpUndelegate || op == OpRedelegate) && !nd.Thorough()})
+	st := Build(ps, Opts{Rewards: true, NVals: 2, StrictRewards: true, ValPriceOne: (op == OpUndelegate || op == OpRedelegate) && !nd.Thorough()})
 	e := st.E
 	for v := 0; v < 2; v++ {
 		if Caught(func() { _, _ = e.K.ClaimValidatorRewards(e.Ctx, AV(e, Vals[v])) }) {
@@ -115,38 +115,58 @@ func c12(id string, op Op, ps []Pos) {
 	nd.Assume(pool().GTE(sum())) // the invariant before the step
 	// region of a known finding: payouts are computed on the reported balance, i.e. the value
 	// rounded UP by the 0.01 epsilon, so a claim can pay more than the exact pro-rata entitlement
+	rounded := false
 	if del, found := e.K.GetDelegation(e.Ctx, Dels[0], Vals[0], Denoms[0]); found {
 		asset, _ := e.K.GetAssetByDenom(e.Ctx, Denoms[0])
 		if math.LegacyNewDecFromInt(types.GetDelegationTokens(del, AV(e, Vals[0]), asset).Amount).GT(posValue(e, Pos{0, 0, 0})) {
 			nd.Tag("balance-rounded-up")
+			rounded = true
 		}
 	}
 	preVal := posValue(e, Pos{0, 0, 0})
+	preBy := posValue(e, Pos{1, 0, 0})
 	nd.ObserveDec("pre.sum", sum())
 	nd.ObserveDec("pre.pool", pool())
 	nd.ObserveDec("pre.val0", preVal)
 	if !RunOp(st, op, id, false) {
 		return
 	}
+	dust := false
 	if op == OpUndelegate || op == OpRedelegate {
 		// region of a known finding: the actor's sub-token remainder is cleared as dust and its value
 		// passes to the co-delegators of the validator, whose accrued entitlements grow with it
 		amt := nd.IntRange("amt", "1", Pow30)
 		if _, found := e.K.GetDelegation(e.Ctx, Dels[0], Vals[0], Denoms[0]); !found && preVal.GT(math.LegacyNewDecFromInt(amt)) {
 			nd.Tag("dust-cleared-remainder")
+			dust = true
 		}
 	}
 	nd.Reach(id)
+	if (op == OpUndelegate || op == OpRedelegate) && !dust && !rounded {
+		// cut lemma: without dust clearing the co-delegator's position on the source validator
+		// does not gain value (it is unchanged, or shrinks when the removed shares were capped)
+		nd.Assert(id+".bystander", nd.LeqDec(posValue(e, Pos{1, 0, 0}), preBy, valTol(preBy)))
+	}
+	if op == OpDelegate {
+		// cut lemma (decided first, then available to the main obligation): the value of the
+		// co-delegator's position is unchanged by a delegation - exact over the reals
+		nd.Assert(id+".bystander", nd.EqIdeal(posValue(e, Pos{1, 0, 0}), preBy, valTol(preBy)))
+	}
 	nd.ObserveDec("post.sum", sum())
 	nd.ObserveDec("post.pool", pool())
 	nd.Assert(id, nd.LeqDec(sum(), pool(), math.LegacyNewDec(int64(len(ps)+2))))
 }
 
 func H_C12_step_claim_Q()      { c12("C12.step.claim", OpClaim, []Pos{{0, 0, 0}, {1, 0, 0}, {1, 1, 0}}) }
-func H_C12_step_delegate_Q()   { c12("C12.step.delegate", OpDelegate, []Pos{{0, 0, 0}, {1, 0, 0}}) }
+func H_C12_step_delegate_Q()   { c12("C12.step.delegate", OpDelegate, []Pos{{0, 0, 0}, {1, 0, 0}, {1, 1, 0}}) }
 func H_C12_step_undelegate_Q() { c12("C12.step.undelegate", OpUndelegate, []Pos{{0, 0, 0}, {1, 0, 0}}) }
 func H_C12_step_redelegate_Q() {
-	c12("C12.step.redelegate", OpRedelegate, []Pos{{0, 0, 0}, {1, 0, 0}, {0, 1, 0}})
+	if nd.Thorough() {
+		c12("C12.step.redelegate", OpRedelegate, []Pos{{0, 0, 0}, {1, 0, 0}, {0, 1, 0}})
+		return
+	}
+	// quick tier: the actor has no position on the destination validator yet
+	c12("C12.step.redelegate", OpRedelegate, []Pos{{0, 0, 0}, {1, 0, 0}})
 }
 func H_C12_step_slash_Q() {
 	nd.Tag("slash-with-unclaimed-rewards")
